@@ -1,0 +1,46 @@
+//go:build verif
+
+package cache
+
+import "sort"
+
+// Sorted dumps of the three maps for the external verification harness (/verif).
+
+func (c *Cache[T]) VerifItemHeights() []uint64 {
+	var hs []uint64
+	c.items.Range(func(k, _ interface{}) bool {
+		if h, ok := k.(uint64); ok {
+			hs = append(hs, h)
+		}
+		return true
+	})
+	sort.Slice(hs, func(i, j int) bool { return hs[i] < hs[j] })
+	return hs
+}
+
+func (c *Cache[T]) VerifSeen() []string {
+	var out []string
+	c.hashes.Range(func(k, v interface{}) bool {
+		if s, ok := k.(string); ok {
+			if b, ok := v.(bool); ok && b {
+				out = append(out, s)
+			}
+		}
+		return true
+	})
+	sort.Strings(out)
+	return out
+}
+
+func (c *Cache[T]) VerifDAIncluded() map[string]uint64 {
+	out := map[string]uint64{}
+	c.daIncluded.Range(func(k, v interface{}) bool {
+		if s, ok := k.(string); ok {
+			if h, ok := v.(uint64); ok {
+				out[s] = h
+			}
+		}
+		return true
+	})
+	return out
+}
